@@ -3172,6 +3172,8 @@ where
         // Try sending the message to the connection handler,
         // High priority messages should not fail.
         tracing::debug!(%peer_id, ?rpc, "Sending Rpc");
+        #[cfg(libp2p_verif)]
+        crate::verif::sent::note(&peer_id, &rpc);
         match peer.messages.try_push(rpc) {
             Ok(()) => true,
             Err(rpc) => {
